@@ -83,6 +83,15 @@ def radicand(rng, tier, n):
     c = rng.random()
     if c < 0.08:
         return rng.choice([0, 1, 2, 3])
+    if n == 2 and c < 0.2:
+        # sqrt_rem_large with n = 2 output words (3- or 4-word radicand) and a large normalisation shift: the low
+        # two words of r + 2*s*s0 are then often smaller than s0^2 (s0 has up to 63 bits) and the subtraction
+        # borrows into the top remainder word; also the same shape with 5 and 7 words
+        words = rng.choice([3, 3, 3, 4, 5, 7])
+        lz = rng.choice([33, 40, 48, 56, 60, 61, 62, 63])
+        bits = words * 64 - lz
+        v = (1 << (bits - 1)) | rng.getrandbits(rng.choice([1, 8, 40, 64, bits - 1]))
+        return v
     if c < 0.45:
         base = big(rng, tier, [1, 1, 2, 2, 3, 4, 5, 9, 17, 35]) or 2
         if n > 40:
@@ -154,40 +163,49 @@ def prim_val(rng, bits):
 
 def source_table():
     """LOG2_TAB of base/src/math/log.rs packed little-endian (ties the Lean table theorem to the source text)"""
-    import re
-    src = open("/repo/base/src/math/log.rs").read()
+    import re, os
+    from vlib import core
+    src = open(os.path.join(core.REPO, "base/src/math/log.rs")).read()
     m = re.search(r"const LOG2_TAB: \[u8; 128\] = \[(.*?)\];", src, re.S)
     if not m:
         return None
     vals = [int(x, 16) for x in re.findall(r"0x([0-9a-fA-F]{2})", m.group(1))]
     return sum(v << (8 * k) for k, v in enumerate(vals)) if len(vals) == 128 else None
 
-def nostd_cases(inner):
-    """Run the harness built WITHOUT the `std` feature (dashu-base then uses the LOG2_TAB estimator) over
-    `inner` = [(op, args)], and wrap each answer into an `ns <answer> <op> <args…>` case: the registered (std)
-    harness echoes the answer, the model computes the no_std estimator (and checks the enclosure exactly)."""
-    import os, subprocess, tempfile
+def echo_cases(inner, nostd):
+    """log2_bounds promises an enclosure, not bit patterns: run the harness over `inner` = [(op, args)] first and
+    wrap each answer into an echo case `lb <answer> <op> <args…>` (registered std build) or `ns …` (harness built
+    WITHOUT the `std` feature, where dashu-base uses the LOG2_TAB estimator).  The registered harness echoes the
+    answer; the model checks with exact integer arithmetic that the reported bounds enclose the true logarithm."""
+    import os, tempfile, shutil
     from vlib import core
-    tdir = os.path.join(core.CACHE, "harness-target-nostd")
-    rc, out = core.run(["cargo", "build", "--offline", "--no-default-features", "--bin", "exec_nt"], cwd=core.HARNESS,
-                       env={"RUSTFLAGS": "--cfg dashu_verif", "CARGO_TARGET_DIR": tdir}, timeout=3600)
-    exe = os.path.join(tdir, "debug", "exec_nt")
+    tag = "ns" if nostd else "lb"
+    if not inner:
+        return []
+    # core.cargo_build honours VERIF_REPO (trial runs against a scratch copy of /repo)
+    if nostd:
+        rc, out, bindir, _ = core.cargo_build(features="", target_sub="harness-target-nostd", bins=["exec_nt"])
+    else:
+        rc, out, bindir, _ = core.cargo_build(bins=["exec_nt"])
+    exe = os.path.join(bindir, "exec_nt")
     if rc != 0 or not os.path.exists(exe):
-        # the libraries no longer build without `std`: make it visible as a disagreement
-        return [Case("ns", ["nostd-build-failed", inner[0][0]] + list(inner[0][1]))]
-    d = tempfile.mkdtemp(prefix="verif-nostd-")
+        # the libraries no longer build in this configuration: make it visible as a disagreement
+        return [Case(tag, ["build-failed", inner[0][0]] + list(inner[0][1]))]
+    d = tempfile.mkdtemp(prefix="verif-echo-")
     try:
         path = os.path.join(d, "cases.txt")
         core.write_cases(path, [Case(op, args) for op, args in inner])
-        res = core.run_side(exe, path, len(inner), 120, "nostd")
+        res = core.run_side(exe, path, len(inner), 120, tag)
     finally:
-        import shutil
         shutil.rmtree(d, ignore_errors=True)
     out = []
     for i, (op, args) in enumerate(inner):
         ans = res.get(i, "missing").replace(" ", "~")
-        out.append(Case("ns", [ans, op] + [str(a) for a in args]))
+        out.append(Case(tag, [ans, op] + [str(a) for a in args]))
     return out
+
+def nostd_cases(inner):
+    return echo_cases(inner, True)
 
 def float_patterns(rng, tier):
     """f32/f64 bit patterns: specials, subnormals, every exponent x a few mantissas (quick: sampled exponents),
@@ -269,6 +287,11 @@ def generate(rng, tier):
                 x = (abs(x) >> (abs(x).bit_length() - 3000)) * (1 if x > 0 else -1)
             x = tame_root_case(abs(x), n) * (1 if x >= 0 else -1)
             yield Case("i.nthroot", [hx(x), dec(n)])
+    # sqrt_rem_large, 3-word radicands just above 2^128: the maximal normalisation shift (126) and a 63-bit s0
+    # (the borrow `c2` of the s0^2 subtraction can never occur — r + 2*s*s0 = s0^2 mod 2^shift — see mutants/C12)
+    for i in range(40 if q else 800):
+        bits = rng.choice([129, 129, 130])
+        yield Case("u.sqrtrem", [hx((1 << (bits - 1)) | rng.getrandbits(bits - 1))])
     # guard cases for the O(n^2) Newton descent fixed in /repo 440594f (degree large, bit length ~1.6 n):
     # with the old start value 2^floor(bits/n) these need ~0.4 n^2 steps (n = 1000: > 10 min) and show up as `hang`
     for n in ([100, 500, 1000] if q else [100, 300, 500, 1000, 1500, 2000]):
@@ -285,7 +308,9 @@ def generate(rng, tier):
     for i in range(250 if q else 5000):
         x, f = remove_pair(rng, tier)
         yield Case("u.remove", [hx(x), hx(f)])
-    # ---- log2 bounds (std build): integers, floats, rationals, primitives
+    # ---- log2 bounds (std build): integers, floats, rationals, primitives — through echo cases (enclosure only)
+    std_inner = [("q.log2b", ["d", "100000"]), ("q.log2b", [hx(1 << 100), "3"]), ("q.log2b", [hx(1 << 100), "ffffff"]),
+                 ("q.log2b", ["3", "4"]), ("q.log2b", ["0", "5"]), ("q.log2b", ["-7", "2"])]
     for i in range(260 if q else 6000):
         r = rng.random()
         if r < 0.3:
@@ -293,9 +318,9 @@ def generate(rng, tier):
             if rng.random() < 0.3:
                 x = rng.choice([0, 1, 2, 3, 5, 6, 7, (1 << 24) - 1, 1 << 24, (1 << 24) + 1, (1 << 25) - 1, (1 << 64) - 1, 1 << 64, (1 << 128) - 1, 1 << 128, (1 << 128) + 1])
             if rng.random() < 0.5:
-                yield Case("u.log2b", [hx(x)])
+                std_inner.append(("u.log2b", [hx(x)]))
             else:
-                yield Case("i.log2b", [hx(signed(rng, x))])
+                std_inner.append(("i.log2b", [hx(signed(rng, x))]))
         elif r < 0.5:
             s = signed(rng, big(rng, tier, [0, 1, 1, 2, 3, 5, 9]))
             e = rng.choice([0, 1, -1, 2, -2, 10, -10, 100, -100, 1000, -1000, 30000, -30000]) if rng.random() < 0.5 else rng.randrange(-400, 400)
@@ -304,9 +329,9 @@ def generate(rng, tier):
                 e = -rng.randrange(1, 300)
                 B = 2 if rng.random() < 0.5 else 10
                 s = B ** (-e) + rng.choice([1, -1, 3, 12345, -98765]) * rng.choice([1, B ** max(0, -e - 8)])
-                yield Case("f%d.log2b" % B, [hx(s), dec(e)])
+                std_inner.append(("f%d.log2b" % B, [hx(s), dec(e)]))
                 continue
-            yield Case(rng.choice(["f2.log2b", "f10.log2b"]), [hx(s), dec(e)])
+            std_inner.append((rng.choice(["f2.log2b", "f10.log2b"]), [hx(s), dec(e)]))
         elif r < 0.75:
             n = signed(rng, big(rng, tier, [0, 1, 1, 2, 3, 5, 9, 20]))
             d = big(rng, tier, [1, 1, 2, 3, 5, 9, 20]) or 1
@@ -317,13 +342,13 @@ def generate(rng, tier):
                 d = 1 << rng.choice([1, 10, 100, 200, 1000])
             elif c < 0.5:
                 n = d + rng.choice([1, -1])                                # ratio next to 1
-            yield Case("q.log2b", [hx(n), hx(d)])
+            std_inner.append(("q.log2b", [hx(n), hx(d)]))
         else:
             ty = rng.choice(["u8", "u16", "u32", "u64", "u128"])
-            yield Case("p.log2b", [ty, hx(prim_val(rng, int(ty[1:])))])
+            std_inner.append(("p.log2b", [ty, hx(prim_val(rng, int(ty[1:])))]))
     # ---- primitive floats by bit pattern (std build; NaN is rejected by an assertion and not generated)
     for ty, bits in float_patterns(rng, tier):
-        yield Case("p.flog2b", [ty, "%x" % bits])
+        std_inner.append(("p.flog2b", [ty, "%x" % bits]))
     # ---- primitives of dashu_base
     for i in range(300 if q else 6000):
         ty = rng.choice(["u8", "u16", "u32", "u64", "u64", "u128", "u128"])
@@ -346,11 +371,28 @@ def generate(rng, tier):
             if rng.random() < 0.5:
                 a, b = b, a
             yield Case(rng.choice(["p.gcd", "p.gcdext"]), [ty, hx(a), hx(b)])
+    # dense runs of the primitive roots of the wider types (table + Newton kernels have per-width constants): the first
+    # 512 values, runs across perfect squares / cubes and their neighbours, runs at random offsets and at the type maximum
+    for ty in ["u32", "u64", "u128"]:
+        bits = int(ty[1:])
+        starts = [0, 256]
+        for _ in range(6 if q else 60):
+            k2 = rng.getrandbits(rng.randrange(2, bits // 2 + 1)) or 3
+            k3 = rng.getrandbits(rng.randrange(2, bits // 3 + 1)) or 3
+            starts += [max(0, k2 * k2 - 32), max(0, k3 ** 3 - 32), rng.getrandbits(rng.randrange(8, bits + 1))]
+        starts += [(1 << bits) - 64, (1 << (bits - 1)) - 32, (1 << (bits - 2)) - 32, (1 << (bits - 3)) - 32]
+        for lo in starts:
+            top = min(1 << bits, (1 << 127) - 1)    # the protocol's d: numbers are parsed as i128 by the harness
+            lo = min(lo, top - 64)
+            n = 256 if lo < 512 else 64
+            n = min(n, top - lo)
+            yield Case("p.sqrtrange", [ty, dec(lo), dec(lo + n)])
+            yield Case("p.cbrtrange", [ty, dec(lo), dec(lo + n)])
     # exhaustive sweeps: u8 always, u16 in thorough (quick: a seeded sample of blocks)
     for lo in range(0, 256, 64):
         yield Case("p.sqrtrange", ["u8", dec(lo), dec(lo + 64)])
         yield Case("p.cbrtrange", ["u8", dec(lo), dec(lo + 64)])
-        yield Case("p.log2brange", ["u8", dec(lo), dec(lo + 64)])
+        std_inner.append(("p.log2brange", ["u8", dec(lo), dec(lo + 64)]))
     rows8 = range(256) if not q else rng.sample(range(256), 24)
     for a in rows8:
         yield Case("p.gcdrow", ["u8", dec(a), dec(0), dec(256)])
@@ -358,7 +400,9 @@ def generate(rng, tier):
     for lo in (blocks if not q else rng.sample(blocks, 10) + [0, 65280]):
         yield Case("p.sqrtrange", ["u16", dec(lo), dec(lo + 256)])
         yield Case("p.cbrtrange", ["u16", dec(lo), dec(lo + 256)])
-        yield Case("p.log2brange", ["u16", dec(lo), dec(lo + 256)])
+        std_inner.append(("p.log2brange", ["u16", dec(lo), dec(lo + 256)]))
+    for c in echo_cases(std_inner, False):
+        yield c
     # ---- the no_std build (table estimator log2_fp8 / ceil_log2_fp8): all u8, u16 blocks, wider types, UBig
     inner = []
     for lo in range(0, 256, 64):
@@ -387,22 +431,21 @@ def generate(rng, tier):
             yield Case("p.gcdrow", ["u16", dec(a), dec(lo), dec(lo + 256)])
 
 REFINED = ["gcd_ops.rs dispatch (gcd / gcd_ext over inline/heap operands) and IBig sign handling", "gcd_large_dword",
+           "gcd::gcd_in_place = lehmer::gcd_in_place: the whole multi-word loop (highest_word_normalized / highest_dword_normalized alignment, lehmer_guess / lehmer_guess_dword, Euclidean fallback, lehmer_step, final word / dword gcd) returns and returns the gcd (lehmer_gcd_correct, gcd_spec)",
+           "lehmer::gcd_ext_in_place: the whole multi-word loop with cofactor tracking (t0 += q*t1 on the Euclidean fallback, lehmer_ext_step, swapped flag as sign, final div_by_word + single-word gcd_ext, |b| = |cx|*t0 + |cy|*t1) returns and meets g = gcd, lhs | g - rhs*b (lehmer_gcd_ext_correct, gcd_ext_spec)",
            "gcd::gcd_ext_word / gcd_ext_dword (coefficient recovery |b| = q*|t| + |s|)", "gcd_ext_large post-processing (one product + exact division)",
-           "base ring/gcd.rs unchecked_gcd_ext (Euclid with cofactors)", "base ring/gcd.rs Gcd::gcd + unchecked_gcd (binary gcd with the one-division shortcut)",
-           "base ring/gcd.rs two-width unchecked_gcd_ext of u128 (full-width Euclid, half-width loop, recombined cofactors)", "lehmer_guess / lehmer_step cofactor matrix (determinant 1 => gcd preserved)",
+           "base ring/gcd.rs unchecked_gcd_ext (Euclid with cofactors)", "base ring/gcd.rs Gcd::gcd + unchecked_gcd (binary gcd with the one-division shortcut; (a|b).trailing_zeros() = min proved)",
+           "base ring/gcd.rs two-width unchecked_gcd_ext of u128 (full-width Euclid, half-width loop, recombined cofactors)", "lehmer_guess / lehmer_step cofactor matrix (determinant 1 => gcd preserved; committed cofactors never make a step negative; every iteration decreases x+y)",
            "nth_root Newton iteration (up then down) and its stopping rule", "sqrt_rem_large normalisation / de-normalisation of root and remainder",
            "log_dword / log_word_base / log_large correction loops for any admissible first guess", "UBig::remove (squaring tower up, then down)",
            "IBig::nth_root / sqrt / cbrt sign rules and panics",
            "no_std table estimator log2_fp8 / ceil_log2_fp8 over all u16, the u8 powering cases and the top-16-bit + shift lifting to wider integers (integer-level enclosure theorems by kernel evaluation)"]
-FRONTIER = ["gcd::gcd_in_place (Lehmer loop): mirrored at value level and proved SOUND (a returned value is the gcd for any guessed "
-            "cofactors); that no step goes negative / the loop returns is checked per call, not proved; the theorems about gcd() use Nat.gcd for it",
-            "gcd::gcd_ext_in_place (Lehmer loop with cofactor tracking): specified by the Euclid loop through its contract",
-            "(a | b).trailing_zeros() is modelled as min(tz a, tz b)",
+FRONTIER = ["gcd_ext_in_place buffer-length claims (t0, t1 fit lhs_len+1 words; |b| fits lhs_len words — the debug_assert_zero on the carries): values are modelled unbounded; a dropped carry would falsify the Bezout check the harness performs on every call. Missing invariant: |t0| <= |t1| <= lhs/y under the x > y normalisation (needs the guessed quotients to be the true quotients, i.e. completeness of Collins' condition, not only non-negativity)",
             "root::sqrt_rem (Zimmermann Karatsuba square root) and sqrt_rem_42: specified by the floor square root",
-            "base ring/root.rs normalized_sqrt_rem / normalized_cbrt_rem (table + Newton): specified by the floor root, compared exhaustively for u8/u16",
+            "base ring/root.rs normalized_sqrt_rem / normalized_cbrt_rem (table + Newton): specified by the floor root, compared exhaustively for u8/u16 and on dense runs around every perfect square/cube boundary class of u32/u64/u128",
             "f32 log2 first guesses of ilog: a parameter with the hypothesis the code asserts (base^est <= x)",
-            "log2_bounds: bit-exact Float32 replica executed in the driver, enclosure decided exactly per call (no theorem about libm log2f)",
-            "f32 arithmetic of the estimators (x/256, + shift, next_up/next_down, *(1 +- 2^-22)): executed bit-exactly, not the subject of a theorem"]
+            "log2_bounds (std build, libm log2f): no theorem; the harness echoes the implementation's own bounds and the driver decides lb <= log2(x) <= ub exactly (certified interval squaring / exact powering) on every call — bit patterns are NOT compared, so a different valid estimator is accepted",
+            "f32 arithmetic of the estimators (x/256, + shift, next_up/next_down, *(1 +- 2^-22)): covered by the per-call enclosure check only"]
 RULE = ("gcd pairs from {0/0, one zero, equal, common factor x cofactor size classes, one divides the other with any length gap, first "
         "quotient > 2^63, Fibonacci pairs (all quotients 1) up to 19300 bits, powers of two / long zero tails, near-equal top words, random "
         "0..320 words; around Lehmer's double-word-guess threshold: 298..302/320/400 words x length gap 0..4 words x 0/1/many leading zero "
@@ -415,27 +458,27 @@ RULE = ("gcd pairs from {0/0, one zero, equal, common factor x cofactor size cla
         "exhaustive u8 (sqrt, cbrt, log2 bounds, gcd rows) and u16 (all in thorough, sampled blocks in quick), boundary + random above. "
         "Non-trivial := an operand above two words or a primitive sweep; distinct := distinct (op,args) lines.")
 EXPLANATION = ("Lean theorems: gcd dispatch = Nat.gcd with the GcdZeroZero panic; Bezout identity of gcd_ext through word/dword recovery and the "
-               "multi-word post-processing (exact division) for any kernel meeting its contract; Lehmer cofactor matrix has determinant 1 and "
-               "preserves the gcd whatever quotients are guessed; Newton nth_root ends at the floor root; sqrt_rem_large de-normalisation is "
+               "multi-word post-processing (exact division); the mirrored Lehmer loops gcd_in_place and gcd_ext_in_place always return and are "
+               "correct (no assumed kernel in gcd or gcd_ext): cofactor matrix has determinant 1, committed steps never go negative, x+y decreases, "
+               "coefficients satisfy x = -+t0*rhs, y = +-t1*rhs (mod lhs); Newton nth_root ends at the floor root; sqrt_rem_large de-normalisation is "
                "exact; ilog correction loops end at floor(log) for any admissible first guess; remove returns the exact multiplicity. "
                "log2_bounds enclosure is decided exactly per call by certified interval squaring / exact powering in the driver.")
 ASSUMPTIONS = ["mul/div/pow of UBig used inside nth_root, ilog and remove are exact (C01, C02)",
-               "(a | b).trailing_zeros() == min(a.trailing_zeros(), b.trailing_zeros()) for non-zero a, b (used when mirroring the primitive gcd)",
-               "Lehmer multi-word kernels and Zimmermann square root meet their contracts (correspondence-checked, not proved)"]
+               "Zimmermann square root and the primitive table/Newton roots meet their contracts (correspondence-checked, not proved)"]
 LEVEL_TEXT = ("Machine-checked Lean 4 theorems over an executable model of gcd/gcd_ext dispatch and Bezout recovery, the Lehmer cofactor "
-              "step, the Newton nth-root iteration, sqrt_rem_large (de)normalisation, the ilog correction loops and remove; the "
-              "multi-word Lehmer loop, Zimmermann's square root and the primitive table/Newton roots enter as contracts. The model is "
+              "step and the complete multi-word Lehmer loops (gcd and extended gcd, proved to return and to be correct), the Newton nth-root iteration, sqrt_rem_large (de)normalisation, the ilog correction loops and remove; "
+              "Zimmermann's square root and the primitive table/Newton roots enter as contracts. The model is "
               "tied to /repo on every run by differential execution over structured operands (perfect powers +-1, size-class "
-              "boundaries, quotient overflow, exhaustive u8/u16); log2 bounds are replayed bit-exactly and their enclosure of the true "
+              "boundaries, quotient overflow, exhaustive u8/u16); log2 bounds are echoed from the implementation and their enclosure of the true "
               "logarithm is decided with exact integer arithmetic on every call.")
 LEVEL_NOTE = ("Trusted: Lean kernel; axioms propext/Classical.choice/Quot.sound; correspondence harness + generators (sampling); frontier "
               "kernels listed in evidence are specified, not verified; the libm-based f32 log2 estimator (std build) is not the subject of "
-              "a theorem — its bounds are replayed bit-exactly and their enclosure is decided exactly per sampled input; the no_std table "
+              "a theorem — the implementation's own bounds are echoed and their enclosure is decided exactly per sampled input; the no_std table "
               "estimator has integer-level enclosure theorems (all u16, u8 powering, wide-integer lifting) and is run through a harness "
               "built without the std feature; f32 rounding of the estimators is executed, not proved.")
 TECHNIQUE = "Lean 4 refinement/termination proofs (fuel + bound theorems) + differential correspondence + exact per-call enclosure checks"
-THEOREMS = ["Dashu.Props.C12." + t for t in ["gcd_prim_spec", "gcd_spec", "gcd_ext_prim_spec", "gcd_ext_prim_wide_spec", "gcd_ext_bezout", "gcd_ext_bezout_driver", "lehmer_guess_det",
-            "lehmer_step_preserves_gcd", "lehmer_gcd_sound", "sqrt_rem_spec", "nth_root_spec", "cbrt_rem_spec", "ibig_root_spec", "ilog_spec", "remove_spec",
+THEOREMS = ["Dashu.Props.C12." + t for t in ["gcd_prim_spec", "trailing_zeros_or", "gcd_spec", "gcd_int_spec", "gcd_spec_frontier", "gcd_ext_prim_spec", "gcd_ext_prim_wide_spec", "gcd_ext_bezout", "lehmer_gcd_ext_correct", "gcd_ext_spec", "gcd_ext_bezout_driver", "lehmer_guess_det",
+            "lehmer_step_preserves_gcd", "lehmer_step_nonneg", "lehmer_gcd_sound", "lehmer_gcd_correct", "sqrt_rem_spec", "nth_root_spec", "cbrt_rem_spec", "ibig_root_spec", "ilog_spec", "remove_spec",
             "log2_table_sound", "log2_u8_table_sound", "log2_wide_table_sound", "nth_root_zero_asIs_counterexample", "sqrt_rem_asIs_counterexample", "ibig_cbrt_asIs_counterexample",
             "ilog_zero_asIs_counterexample", "gcd_ext_post_precondition_counterexample"]]
 READY = True
